@@ -377,3 +377,66 @@ func algRule(protAlg *refcbor.Item, verifierAlg int64, external []byte) string {
 }
 
 func sameBytes(a, b []byte) bool { return bytes.Equal(a, b) }
+
+// dropRawHeaders clears the retained raw bytes of a layer and of every
+// countersignature nested in its unprotected bucket.
+func dropRawHeaders(h *cose.Headers, depth int) {
+	h.RawProtected, h.RawUnprotected = nil, nil
+	if depth > 32 {
+		return
+	}
+	for _, label := range []int64{cose.HeaderLabelCounterSignature, cose.HeaderLabelCounterSignatureV2} {
+		switch v := h.Unprotected[label].(type) {
+		case *cose.Countersignature:
+			if v != nil {
+				dropRawHeaders(&v.Headers, depth+1)
+			}
+		case []*cose.Countersignature:
+			for _, c := range v {
+				if c != nil {
+					dropRawHeaders(&c.Headers, depth+1)
+				}
+			}
+		}
+	}
+}
+
+// DropRawDeep clears the retained raw header bytes of every layer of the
+// message, nested countersignatures included.
+func (rc *Received) DropRawDeep() {
+	if rc.M1 != nil {
+		dropRawHeaders(&rc.M1.Headers, 0)
+	}
+	if rc.MS != nil {
+		dropRawHeaders(&rc.MS.Headers, 0)
+		for _, s := range rc.MS.Signatures {
+			if s != nil {
+				dropRawHeaders(&s.Headers, 0)
+			}
+		}
+	}
+}
+
+// nonCanonicalDeep explains why a wire message is not in deterministic form,
+// looking inside protected headers too ("" when it is canonical).
+func nonCanonicalDeep(b []byte) string {
+	if r := refcbor.IsCanonicalBytes(b); r != "" {
+		return r
+	}
+	m, err := OpenTree(b)
+	if err != nil {
+		return err.Error()
+	}
+	for _, w := range m.wraps {
+		if r := refcbor.IsCanonicalBytes(w.bstr.Data); r != "" {
+			return "inside a protected header: " + r
+		}
+	}
+	// an empty protected header must be h'', a0 inside is not canonical output
+	for _, s := range m.Slots() {
+		if s.Role == "prot" && bytes.Equal(s.Arr.Elems[s.Idx].Data, []byte{0xa0}) {
+			return "empty protected header spelt h'a0'"
+		}
+	}
+	return ""
+}
